@@ -951,7 +951,7 @@ func run(r *ev.Run, tier, replay string) {
 			long++
 		}
 	}
-	const maxLong = 15000
+	const maxLong = 40000
 	pick := rand.New(rand.NewSource(seed * 104729))
 	for _, b := range lines.Behaviours {
 		switch {
